@@ -16,7 +16,7 @@ META = {
 
 def run(ctx):
     return mworld.run_family(
-        ctx, "C12", scenarios=[1, 2, 8], impls=["overlay-basic", "overlay-mutable", "overlay-empty"],
+        ctx, "C12", scenarios=[1, 2, 8], impls=["overlay-basic", "overlay-mutable", "overlay-empty", "overlay-compact"],
         sections=["result-overreject", "result-panic", "lookup", "each", "search", "problems", "hang"],
         meta_rule="every transition of the TLC state graph of MutableWorld scenarios 1-2 executed on 3 overlay world "
                   "constructions via its shortest prefix + random walks; distinct = distinct (scenario, impl, op path)",
